@@ -149,6 +149,33 @@ CHECKS = {
                      "extracted body equals the bytes at the recorded offset; archives without visor members are compared with "
                      "the standard tarfile reader.",
                 note="trusted: visor header transcription in mc/builders/vmtar.py (walks the repository fixture), CPython tarfile"),
+    "C09": dict(level=MC, ref="DESIGN.md section 4 C09",
+                text="A census workload executes every public entry point x input kind x error path (handles, handle lists, Path "
+                     "and str paths, parent / snapshot chains, missing parents / extents / descriptors, wrong magics, truncations, "
+                     "hostile XML, the envelope-decrypt tool) under an OS-level audit monitor, write-trapping file objects and a "
+                     "content+mtime digest of a read-only evidence directory; any write-mode open, file-system mutation, process "
+                     "or network event attributed to library frames is a violation, as is a write-mode literal or mutating call "
+                     "site found by the AST census outside the tool's --output.",
+                note="trusted: CPython audit events; execution-based, so unreachable code is reported by the AST census as "
+                     "uncovered rather than vouched for",
+                technique="exhaustive census of entry points x input kinds x error paths under an audit monitor (monitor-based exploration)"),
+    "C11": dict(level=FE, ref="DESIGN.md section 4 C11",
+                text="For one minimal valid seed per structural variant of every parser, every field of its field map x fault value "
+                     "(0, 1, 2, max, max-1, +-1, x2, own offset, offsets of other structures), every truncation point, every "
+                     "table-entry alias pair and explicit cycle / bomb / invalid-bitmap inputs are opened and read under a "
+                     "deterministic step meter (sys.monitoring), a tracemalloc memory meter and a watchdog; the call must return "
+                     "or raise within budgets that are linear in input + request size.",
+                note="trusted: sys.monitoring / tracemalloc; 'all byte strings' is replaced by the structured single-fault space; C "
+                     "extension time is bounded only by the watchdog",
+                technique="exhaustive single-fault enumeration over field maps under step / memory meters"),
+    "C12": dict(level=FE, ref="DESIGN.md section 4 C12",
+                text="A gate table lists every validated magic, signature, GUID, version, geometry value, feature flag and "
+                     "identifier of every parser; per gate every single-bit flip (magics / GUIDs), every value 0..255 + bit flips "
+                     "+ max (numeric fields) and every string at edit distance 1 (identifiers) is applied to an otherwise valid "
+                     "input: values outside the accepted set must make the open / unlock call raise, values inside it and the "
+                     "seed must be accepted.",
+                note="trusted: builders; bare handles with an unknown magic are flat extents by design",
+                technique="exhaustive enumeration of out-of-set values per validation gate"),
 }
 
 PENDING_REASON = "check not built yet in this session (planned in DESIGN.md section 4); not claimed until it runs"
